@@ -335,6 +335,10 @@ class Stream(APIRegisterMixin):
         classes which handle stream specific buffers/caches"""
         self.upstreams.remove(upstream)
 
+    def _upstream_disconnected(self):
+        """Called after an upstream has been disconnected; combining nodes may
+        have to act on what their remaining inputs delivered so far"""
+
     def start(self):
         """ Start any upstream sources """
         for upstream in self.upstreams:
@@ -532,6 +536,7 @@ class Stream(APIRegisterMixin):
         self._remove_downstream(downstream)
 
         downstream._remove_upstream(self)
+        downstream._upstream_disconnected()
 
     @property
     def upstream(self):
@@ -1628,8 +1633,27 @@ class zip(Stream):
 
     def _remove_upstream(self, upstream):
         # Override method to handle removal of buffer for stream
-        self.buffers.pop(upstream)
+        for _, metadata in self.buffers.pop(upstream):
+            self._release_refs(metadata)
         super(zip, self)._remove_upstream(upstream)
+
+    def _upstream_disconnected(self):
+        # the disconnected input may be the one the others were waiting for
+        while self.buffers and all(self.buffers.values()):
+            self._emit_tuple()
+
+    def _emit_tuple(self):
+        vals = [self.buffers[up][0] for up in self.upstreams]
+        tup, md = __builtins__['zip'](*vals)
+        for buf in self.buffers.values():
+            buf.popleft()
+        self.condition.notify_all()
+        if self.literals:
+            tup = self.pack_literals(tup)
+        md = [m for ml in md for m in ml]
+        ret = self._emit(tup, md)
+        self._release_refs(md)
+        return ret
 
     def pack_literals(self, tup):
         """ Fill buffers for literals whenever we empty them """
@@ -1650,17 +1674,7 @@ class zip(Stream):
         L = self.buffers[who]  # get buffer for stream
         L.append((x, metadata))
         if len(L) == 1 and all(self.buffers.values()):
-            vals = [self.buffers[up][0] for up in self.upstreams]
-            tup, md = __builtins__['zip'](*vals)
-            for buf in self.buffers.values():
-                buf.popleft()
-            self.condition.notify_all()
-            if self.literals:
-                tup = self.pack_literals(tup)
-            md = [m for ml in md for m in ml]
-            ret = self._emit(tup, md)
-            self._release_refs(md)
-            return ret
+            return self._emit_tuple()
         elif len(L) > self.maxsize:
             return self.condition.wait()
 
